@@ -1,4 +1,6 @@
 //! Harness binary for the BTOR2 parser (flussab-btor2).
+mod c03;
+mod c06;
 mod catalogue;
 mod gen;
 mod subjects;
@@ -22,8 +24,10 @@ fn main() {
         let text = std::fs::read_to_string(cli.file.as_ref().expect("replay needs a file")).unwrap();
         let v: Value = mc_core::serde_json::from_str(&text).unwrap();
         let v = if v.get("replay").is_some() { v["replay"].clone() } else { v };
-        let subject = subjects::by_name(v["subject"].as_str().unwrap());
+        let subject = subjects::by_name(v["subject"].as_str().unwrap_or("btor2"));
         let (violated, text) = match v["property"].as_str().unwrap_or("") {
+            "C03" => c03::replay(&v),
+            "C06" => c06::replay(&v),
             "C01" => generic::c01_replay(subject.as_ref(), &v),
             "C04" => generic::c04_replay(subject.as_ref(), &v),
             "C05" => generic::c05_replay(subject.as_ref(), &v),
@@ -131,6 +135,14 @@ fn main() {
             }
             report.traces = report.evaluations;
             "every well-formed corpus document x streaming subject, delivered by a source that hands out at most the rest of the current line per read (choice: any shorter amount; deviation bounded) x chunk sizes; at the moment each item is returned the source must not have been asked beyond the line that completes the item (completing line = line containing the end of the shortest prefix on which the parser, given end of input, returns the same item)".into()
+        }
+        "C03" => {
+            c03::run(tier, &mut report, &gen::inputs(tier).all());
+            c03::RULE.into()
+        }
+        "C06" => {
+            c06::run(tier, &mut report);
+            c06::RULE.into()
         }
         other => {
             eprintln!("mc-btor2: unknown property {other:?}");
